@@ -375,7 +375,7 @@ func init() {
 	fw.Register(&fw.Prop{
 		ID:          "C04",
 		Level:       "exploration",
-		Rule:        "(a) every valid request shape of the grammar (<=12 shapes per command; thorough: all shapes, and pairs of positions for the first 40) with each argument position, command name included, replaced by each of 13 (thorough 23) nasty strings (CR, LF, CRLF followed by forged +OK / :1 / $-1 frames, NUL, 0xff, type characters), pairs of positions for the first shapes; 21 non-command top-level values (status, error, integer, bulk, null, empty array, null/integer/status/error/nested first element), alone and doubled inside a pipeline; (b) 29 trigger commands x 10 handler result kinds (status/error/integer/bulk/array/nested carrying each nasty string, (nil,nil), (nil,err), (msg,err), nil bulk); (c) the example store preloaded with nasty keys/values/members and read back by 24 commands. (f) after CONFIG SET timeout 1, the j-th reply write (j=2..5) is cut in half by a timeout, injected only if the server armed a write deadline on the connection: nothing may follow the cut frame. (e) replies of 1000..70000 bytes (GET, LRANGE, ECHO, twice) still pending when the stream continues with a protocol error, ends, ends inside a request, or carries QUIT or a non-command value. (d) two connections running scripts with replies of every type and of different lengths through the real accept loop, every schedule within deviation bound 2 (thorough 3): each connection's bytes must decode strictly into exactly its own replies (no bytes shared between connections). Oracle: the whole reply log is a concatenation of complete strict-RESP2 values, with exactly one frame per request (fewer only if the server closed the connection before the client's end of stream was reported to it). Handler results include reply objects returned repeatedly or read before being returned, and replies nested 3..5000 arrays deep.",
+		Rule:        "(a) every valid request shape of the grammar (<=12 shapes per command; thorough: all shapes, and pairs of positions for the first 40) with each argument position, command name included, replaced by each of 13 (thorough 23) nasty strings (CR, LF, CRLF followed by forged +OK / :1 / $-1 frames, NUL, 0xff, type characters), pairs of positions for the first shapes; 21 non-command top-level values (status, error, integer, bulk, null, empty array, null/integer/status/error/nested first element), alone and doubled inside a pipeline; (b) 29 trigger commands x 10 handler result kinds (status/error/integer/bulk/array/nested carrying each nasty string, (nil,nil), (nil,err), (msg,err), nil bulk); (c) the example store preloaded with nasty keys/values/members and read back by 24 commands. (f) after CONFIG SET timeout 1, the j-th reply write (j=2..5) is cut in half by a timeout, injected only if the server armed a write deadline on the connection: nothing may follow the cut frame. (e) replies of 1000..70000 bytes (GET, LRANGE, ECHO, twice) still pending when the stream continues with a protocol error, ends, ends inside a request, or carries QUIT or a non-command value. (d) two connections running scripts with replies of every type and of different lengths through the real accept loop, every schedule within deviation bound 2 (thorough 3): each connection's bytes must decode strictly into exactly its own replies (no bytes shared between connections). Oracle: the whole reply log is a concatenation of complete strict-RESP2 values, with exactly one frame per request (fewer only if the server closed the connection before the client's end of stream was reported to it). Handler results include reply objects returned repeatedly or read before being returned, and replies nested 3..5000 arrays deep. Reply length ladder: a bulk reply of every length 0..1100 and around every power of ten and of two up to 10^5, through ECHO, as a handler's array element and from the example store.",
 		Assumptions: []string{"the strict decoder in /verif/resp judges the reply stream", "panics/hangs are judged by C07/C03, not here"},
 		Run:         func(c *fw.Ctx) { c04Run(c); c04Sched(c) },
 		Replay:      c04ReplayAll,
